@@ -614,7 +614,7 @@ fn build_segment_from_runs(seg_id: SegmentId, runs: &Arc<Vec<Arc<L0Run>>>) -> Cs
             max_dst: 0,
             offsets: vec![0, 0],
             edges: Vec::new(),
-            in_offsets: Vec::new(),
+            in_offsets: vec![0, 0],
             in_edges: Vec::new(),
         };
     }
